@@ -703,7 +703,7 @@ CHECKS["C02"].update({
 # audit round (F2, F8): C03 for trees parsed WITH positions
 _add("C03", "print_erase (the printer ignores source positions: print(d) = print(erase d), every node kind, Lemmas/PrintErase.lean) and, with C02's "
             "noloc_erasure, the round trip for trees parsed WITH positions under ANY flags: print_parse_located (the printed tree re-parses to a tree equal "
-            "to the original UP TO SOURCE POSITIONS, modulo the member descriptions of R4), print_parse_located_iff (exact exclusion), "
-            "print_stable_located.",
+            "to the original UP TO SOURCE POSITIONS, modulo the member descriptions of R4), print_parse_located_exact (a located tree without member descriptions round-trips up to positions: "
+            "the statement as written outside R4), print_parse_located_loss, print_parse_located_iff (exact exclusion), print_stable_located.",
      "print_total only says the output ends with a newline: 'printing never raises' / 'is deterministic' hold for the MODEL by construction (a total "
      "Lean function without error branch) and are tied to the code only by the correspondence and the direct oracle (stated in its doc comment).")
